@@ -37,9 +37,10 @@ def cases(rng, tier):
             snr = [rng.choice([1, 2, 10, 100, 0.5, 3.75]) for _ in range(n if per else 1)]
         else:
             snr = None
-        yield {"a": [str(v) for v in a], "mode": mode, "per": per, "snr": snr, "std": rng.choice([1.0, 0.25, 3.0]),
+        yield {"snr_dtype": rng.choice([None, None, "uint8", "uint16", "int8", "int64", "int32"]),
+               "a": [str(v) for v in a], "mode": mode, "per": per, "snr": snr, "std": rng.choice([1.0, 0.25, 3.0]),
                "draw": [str(rng.dyadic(-40, 40, 16)) for _ in range(n)], "via": rng.choice(["process", "weaver"]),
-               "stat": i < (3 if tier != "thorough" else 12), "seed": rng.randint(0, 10 ** 6)}
+               "stat": i < (6 if tier != "thorough" else 20), "seed": rng.randint(0, 10 ** 6)}
 
 
 def A(c):
@@ -120,6 +121,9 @@ def run_impl(c):
         snr = c["snr"] if c["per"] else c["snr"][0]
         if c["per"] and c.get("snr_array", True):
             snr = np.array(c["snr"], dtype=float)       # the caller's own profile: must not be written to
+            dt = c.get("snr_dtype")
+            if dt and all(float(v).is_integer() and (v >= 0 or not dt.startswith("u")) and abs(v) < 120 for v in c["snr"]):
+                snr = np.array(c["snr"], dtype=dt)      # whole decibels stored compactly (uint8 / int16 / float32 ...)
             snr_before = snr.copy()
         kw["snr_in_db"] = c["mode"] == "db"
     else:
